@@ -670,7 +670,11 @@ func runScenario(c *hx.Ctx, cs c09case) error {
 		}
 		cuts := s.cutPoints(o, quick, r)
 		if cs.Cut >= 0 {
-			cuts = []int{cs.Cut}
+			k := cs.Cut
+			if k > len(o.events) {
+				k = len(o.events) // replay files may name a cut index of a longer (older) write sequence: end of operation
+			}
+			cuts = []int{k}
 		}
 		exhaustive := len(cuts) == len(o.events)+1
 		c.Hit(fmt.Sprintf("swept-op:%s:exhaustive=%v", o.kind, exhaustive))
@@ -923,7 +927,7 @@ func init() {
 		}
 		c.Rep.Rule = "scenarios = real chain histories followed by a victim replica over a crash-injecting database; kinds: mixed (plain / identity-update / snapshot-flag blocks with all ordinary tx kinds), epoch (validation ceremony, the epoch-finishing block and its neighbours), retention (>100 blocks: tree-version pruning batches), fork (ResetTo + re-apply of a longer fork), fastsync (preliminary identity state, header chain, snapshot import, AtomicSwitchToPreliminary, clearing of the old trees); every write event of the swept operations is a cut point (thorough: all; quick: all class boundaries + sample); per cut: real start-up on the surviving store, model comparison, continuation with the same next blocks, end-state comparison; distinct = (scenario, operation, cut index)"
 		kinds := []string{"mixed", "fork", "epoch", "retention", "fastsync", "mixed", "fork"}
-		n := c.Scale(28, 70)
+		n := c.Scale(28, 210)
 		if c.Tier == "search" {
 			n = 42 // other seeds, same cut policy as quick (a scenario costs ~1 s; ten times quick is not needed to find a cut)
 		}
